@@ -11,6 +11,9 @@
 //!      weight prepacking toggled at random), incl. `If`/`Loop` bodies capturing outer values by name;
 //!  (B) graphs built through the `Graph` API from mock operators (arbitrary in-place index sets,
 //!      commutativity, optional inputs/outputs, failures) plus real `Identity`/`Shape`/`If`.
+//!  (C) ONNX models aimed at pool recycling with spare capacity: big buffers of several sizes are
+//!      released early in the run, a smaller temporary is then allocated from the pool and grown by a
+//!      chain of `Concat`s along random axes (in place when it is the first operand with one use).
 //! Every request is run under several configurations (normal, never-in-place reference, other thread
 //! counts, RTEN_USE_POOL=0, all-borrowed / all-owned / other ownership masks, other prepack setting).
 //!
@@ -36,7 +39,7 @@ use std::collections::{BTreeMap, BTreeSet, HashMap};
 use std::sync::atomic::{AtomicU64, Ordering};
 use std::sync::Arc;
 
-const RULE: &str = "impl run_plan bookkeeping trace == Lean runPlan; oracle: outputs/error identical under never-in-place, thread count, RTEN_USE_POOL, owned/borrowed masks, prepack; family B also == naive evaluation";
+const RULE: &str = "impl run_plan bookkeeping trace == Lean runPlan; oracle: outputs/error identical under never-in-place, thread count, RTEN_USE_POOL, owned/borrowed masks, prepack; families B and C also == naive evaluation";
 
 // ---------------------------------------------------------------------------------------------
 // Graph description (request line fields that depend only on the graph)
@@ -2279,6 +2282,312 @@ fn family_a_case(rng: &mut Rng, pools: &Pools, out: &mut Out) {
 }
 
 // ---------------------------------------------------------------------------------------------
+// Family C: buffers recycled through the pool with spare capacity + in-place operators that GROW
+// their operand (`Concat::run_in_place` via `Tensor::has_capacity`/`append`).
+//
+// Shape of a case: one to three "big" chains `a_j = Neg|Abs(X_j)`, `m_j = Reduce*(a_j, last axis)`
+// release buffers of several sizes to the pool early in the run; `c = z (+|-) m_0` is then allocated
+// from the pool (possibly into a much larger recycled buffer); a chain of `Concat`s along random
+// axes (incl. inner axes with outer dims > 1) grows `c` — in place when `c` is the first operand with
+// one remaining use.  f32 and i32.  Oracle: reference mode / RTEN_USE_POOL=0 / masks (run_case) and
+// the naive evaluation computed here.
+// ---------------------------------------------------------------------------------------------
+
+#[derive(Clone, Debug)]
+struct CT {
+    shape: Vec<usize>,
+    data: Vec<f64>,
+}
+
+fn ct_index(shape: &[usize], mut lin: usize) -> Vec<usize> {
+    let mut idx = vec![0; shape.len()];
+    for d in (0..shape.len()).rev() {
+        idx[d] = lin % shape[d];
+        lin /= shape[d];
+    }
+    idx
+}
+
+fn ct_lin(shape: &[usize], idx: &[usize]) -> usize {
+    let mut l = 0;
+    for d in 0..shape.len() {
+        l = l * shape[d] + idx[d];
+    }
+    l
+}
+
+fn ct_unary(op: &str, a: &CT) -> CT {
+    CT {
+        shape: a.shape.clone(),
+        data: a.data.iter().map(|x| if op == "Neg" { -*x } else { x.abs() }).collect(),
+    }
+}
+
+/// Reduce over the last axis with keepdims=1.
+fn ct_reduce(op: &str, a: &CT) -> CT {
+    let n = *a.shape.last().unwrap();
+    let mut shape = a.shape.clone();
+    *shape.last_mut().unwrap() = 1;
+    let data = a
+        .data
+        .chunks(n)
+        .map(|c| match op {
+            "ReduceMax" => c.iter().cloned().fold(f64::NEG_INFINITY, f64::max),
+            "ReduceMin" => c.iter().cloned().fold(f64::INFINITY, f64::min),
+            _ => c.iter().sum(),
+        })
+        .collect();
+    CT { shape, data }
+}
+
+fn ct_bin(op: &str, a: &CT, b: &CT) -> CT {
+    let shape = bcast(&a.shape, &b.shape).expect("family C shapes broadcast");
+    let n: usize = shape.iter().product();
+    let pick = |t: &CT, idx: &[usize]| -> f64 {
+        let off = shape.len() - t.shape.len();
+        let ti: Vec<usize> = (0..t.shape.len()).map(|d| if t.shape[d] == 1 { 0 } else { idx[d + off] }).collect();
+        t.data[ct_lin(&t.shape, &ti)]
+    };
+    let data = (0..n)
+        .map(|l| {
+            let idx = ct_index(&shape, l);
+            let (x, y) = (pick(a, &idx), pick(b, &idx));
+            if op == "Add" {
+                x + y
+            } else {
+                x - y
+            }
+        })
+        .collect();
+    CT { shape, data }
+}
+
+fn ct_concat(parts: &[&CT], axis: usize) -> CT {
+    let mut shape = parts[0].shape.clone();
+    shape[axis] = parts.iter().map(|p| p.shape[axis]).sum();
+    let n: usize = shape.iter().product();
+    let data = (0..n)
+        .map(|l| {
+            let mut idx = ct_index(&shape, l);
+            let mut k = idx[axis];
+            for p in parts {
+                if k < p.shape[axis] {
+                    idx[axis] = k;
+                    return p.data[ct_lin(&p.shape, &idx)];
+                }
+                k -= p.shape[axis];
+            }
+            unreachable!()
+        })
+        .collect();
+    CT { shape, data }
+}
+
+fn ct_outval(t: &CT, int: bool) -> OutVal {
+    if int {
+        OutVal { dtype: "i32", shape: t.shape.clone(), bits: t.data.iter().map(|x| *x as i32 as u32 as u64).collect() }
+    } else {
+        OutVal { dtype: "f32", shape: t.shape.clone(), bits: t.data.iter().map(|x| (*x as f32).to_bits() as u64).collect() }
+    }
+}
+
+fn ct_value(t: &CT, int: bool) -> Value {
+    if int {
+        ivalue(&t.shape, t.data.iter().map(|x| *x as i32).collect())
+    } else {
+        fvalue(&t.shape, t.data.iter().map(|x| *x as f32).collect())
+    }
+}
+
+fn family_c_case(rng: &mut Rng, pools: &Pools, out: &mut Out) {
+    let int = rng.chance(1, 3);
+    let odt = if int { dt::INT32 } else { dt::FLOAT };
+    let rank = 2 + rng.usize_below(2);
+    let mut lead: Vec<usize> = vec![*rng.pick(&[1usize, 2, 3, 4, 5])];
+    if rank == 3 {
+        lead.push(*rng.pick(&[1usize, 2, 3]));
+    }
+    let with_last = |l: usize| -> Vec<usize> {
+        let mut s = lead.clone();
+        s.push(l);
+        s
+    };
+    let mut env: HashMap<String, CT> = HashMap::new();
+    let mut nodes: Vec<ONode> = vec![];
+    let mut inits: Vec<OTensor> = vec![];
+    let mut inputs: Vec<ValueInfo> = vec![];
+    let mut in_names: Vec<String> = vec![];
+    let mut tags: Vec<String> = vec![format!("C_rank{rank}"), if int { "C_i32".into() } else { "C_f32".into() }];
+    // nonzero small integers: exact in f32 and i32, no signed-zero ambiguity in the reductions
+    let mut new_input = |rng: &mut Rng, env: &mut HashMap<String, CT>, name: &str, shape: Vec<usize>| {
+        let n: usize = shape.iter().product();
+        let data = (0..n)
+            .map(|_| {
+                let v = 1 + rng.below(9) as i64;
+                (if rng.chance(1, 2) { v } else { -v }) as f64
+            })
+            .collect();
+        inputs.push(if rng.chance(1, 2) {
+            ValueInfo::fixed(name, odt, &i64s(&shape))
+        } else {
+            ValueInfo::new(name, odt, None)
+        });
+        in_names.push(name.to_string());
+        env.insert(name.to_string(), CT { shape, data });
+    };
+    inits.push(OTensor::i64s("ax_last", &[1], &[(rank - 1) as i64]));
+    // big chains
+    let n_big = 1 + rng.usize_below(3);
+    let mut ms: Vec<String> = vec![];
+    for j in 0..n_big {
+        let b = *rng.pick(&[8usize, 32, 64, 100, 256, 600]);
+        let xn = format!("X{j}");
+        new_input(rng, &mut env, &xn, with_last(b));
+        let mut cur = xn.clone();
+        for t in 0..1 + rng.usize_below(2) {
+            let op = *rng.pick(&["Neg", "Abs"]);
+            let o = format!("a{j}_{t}");
+            nodes.push(ONode::new(op, &format!("n_{o}"), &[&cur], &[&o]));
+            let r = ct_unary(op, &env[&cur]);
+            env.insert(o.clone(), r);
+            cur = o;
+        }
+        let rop = *rng.pick(&["ReduceMax", "ReduceMin", "ReduceSum"]);
+        let m = format!("m{j}");
+        nodes.push(ONode::new(rop, &format!("n_{m}"), &[&cur, "ax_last"], &[&m]).attr("keepdims", Attr::Int(1)));
+        let r = ct_reduce(rop, &env[&cur]);
+        env.insert(m.clone(), r);
+        ms.push(m);
+    }
+    // the temporary that will be grown
+    let w = *rng.pick(&[2usize, 8, 16, 24, 40]);
+    new_input(rng, &mut env, "z", with_last(w));
+    let mut cur = "z".to_string();
+    for (j, m) in ms.iter().enumerate() {
+        if j > 0 && rng.chance(1, 2) {
+            continue;
+        }
+        let op = *rng.pick(&["Add", "Sub"]);
+        let o = format!("c{j}");
+        let (l, r) = if op == "Add" && rng.chance(1, 3) { (m.clone(), cur.clone()) } else { (cur.clone(), m.clone()) };
+        nodes.push(ONode::new(op, &format!("n_{o}"), &[&l, &r], &[&o]));
+        let v = ct_bin(op, &env[&l], &env[&r]);
+        env.insert(o.clone(), v);
+        cur = o;
+    }
+    let mut extra_outs: Vec<String> = vec![];
+    if rng.chance(1, 6) {
+        // a second consumer of the temporary: the first Concat cannot run in place
+        nodes.push(ONode::new("ReduceSum", "n_s", &[&cur, "ax_last"], &["s"]).attr("keepdims", Attr::Int(1)));
+        let v = ct_reduce("ReduceSum", &env[&cur]);
+        env.insert("s".into(), v);
+        extra_outs.push("s".into());
+        tags.push("C_second_consumer".into());
+    }
+    // concat chain
+    let n_cc = 1 + rng.usize_below(3);
+    for t in 0..n_cc {
+        let axis = rng.usize_below(rank);
+        let cs = env[&cur].shape.clone();
+        let outer: usize = cs[..axis].iter().product();
+        tags.push(if outer > 1 { "C_inner_axis".into() } else { "C_outer_axis".into() });
+        let n_other = 1 + rng.usize_below(2);
+        let mut names: Vec<String> = vec![cur.clone()];
+        for u in 0..n_other {
+            let mut sh = cs.clone();
+            sh[axis] = 1 + rng.usize_below(3);
+            let yn = format!("y{t}_{u}");
+            new_input(rng, &mut env, &yn, sh);
+            if rng.chance(1, 4) {
+                let o = format!("yy{t}_{u}");
+                nodes.push(ONode::new("Neg", &format!("n_{o}"), &[&yn], &[&o]));
+                let v = ct_unary("Neg", &env[&yn]);
+                env.insert(o.clone(), v);
+                names.push(o);
+            } else {
+                names.push(yn);
+            }
+        }
+        if rng.chance(1, 6) {
+            names.swap(0, 1); // grown temporary is not the first operand: never in place
+            tags.push("C_not_first".into());
+        }
+        let o = format!("cc{t}");
+        let refs: Vec<&str> = names.iter().map(|s| s.as_str()).collect();
+        nodes.push(ONode::new("Concat", &format!("n_{o}"), &refs, &[&o]).attr("axis", Attr::Int(axis as i64)));
+        let parts: Vec<&CT> = names.iter().map(|n| &env[n]).collect();
+        let v = ct_concat(&parts, axis);
+        env.insert(o.clone(), v);
+        cur = o;
+    }
+    let mut out_names: Vec<String> = vec![cur.clone()];
+    out_names.extend(extra_outs);
+    if rng.chance(1, 4) {
+        out_names.push(ms[0].clone());
+    }
+    let g = onnx_enc::Graph {
+        name: "main".into(),
+        nodes,
+        initializers: inits,
+        inputs,
+        outputs: out_names.iter().map(|n| ValueInfo::new(n, odt, None)).collect(),
+        value_infos: vec![],
+    };
+    let desc = describe_onnx(&g);
+    let optimize = rng.chance(1, 3);
+    let mut mo = ModelOptions::with_all_ops();
+    mo.enable_optimization(optimize);
+    let bytes = g.into_model_bytes(21);
+    let model = match hcommon::catch(|| mo.load(bytes)) {
+        Ok(Ok(m)) => m,
+        Ok(Err(e)) => {
+            out.bucket("C_load_error");
+            out.note(&format!("family C model failed to load: {e} | {desc}"));
+            return;
+        }
+        Err(m) => {
+            out.bucket("C_load_panic");
+            out.note(&format!("family C model load panicked: {m} | {desc}"));
+            return;
+        }
+    };
+    let gr = model.verif_graph();
+    let mut infos = HashMap::new();
+    collect_infos(gr, &mut infos);
+    let root_ops = infos.get(&(gr as *const Graph as usize)).map(|i| i.n_ops).unwrap_or(0);
+    let ids = |names: &[String]| -> Option<Vec<NodeId>> { names.iter().map(|n| model.node_id(n).ok()).collect() };
+    let (Some(in_ids), Some(outs)) = (ids(&in_names), ids(&out_names)) else {
+        out.bucket("C_missing_node");
+        return;
+    };
+    let in_vals: Vec<Value> = in_names.iter().map(|n| ct_value(&env[n], int)).collect();
+    let mask: Vec<bool> = match rng.below(4) {
+        0 => vec![false; in_names.len()],
+        1 => vec![true; in_names.len()],
+        _ => (0..in_names.len()).map(|_| rng.chance(1, 2)).collect(),
+    };
+    let naive = Outcome::Ok(out_names.iter().map(|n| ct_outval(&env[n], int)).collect());
+    let mref = &model;
+    let run = move |_alt: bool, inputs: Vec<(NodeId, ValueOrView)>, outs: &[NodeId], opts: RunOptions| mref.run(inputs, outs, Some(opts));
+    tags.push(if optimize { "optimizer_on".into() } else { "optimizer_off".into() });
+    let case = Case {
+        fam: "C",
+        infos,
+        run: &run,
+        in_ids,
+        in_vals,
+        mask,
+        outs,
+        alt: None,
+        naive: Some(naive),
+        tags,
+        root_ops,
+        panic_info: format!("model: {desc}"),
+    };
+    run_case(&case, rng, pools, out);
+}
+
+// ---------------------------------------------------------------------------------------------
 
 static PROGRESS: AtomicU64 = AtomicU64::new(0);
 
@@ -2311,6 +2620,19 @@ fn main() {
     std::env::remove_var("RTEN_USE_POOL");
 
     let (n_a, n_b) = if args.thorough { (9_000, 18_000) } else { (700, 1_400) };
+    let n_c = if args.thorough { 6_000 } else { 500 };
+    for ci in 0..n_c {
+        PROGRESS.store(ci as u64 + 1, Ordering::SeqCst);
+        let mut case_rng = Rng::new(rng.next_u64());
+        let r = hcommon::catch(|| family_c_case(&mut case_rng, &pools, &mut out));
+        exec_trace::set_never_in_place(false);
+        let _ = exec_trace::take_trace();
+        std::env::remove_var("RTEN_USE_POOL");
+        if let Err(m) = r {
+            out.bucket("harness_panic");
+            out.note(&format!("case {ci} (C) panicked in the harness: {m}"));
+        }
+    }
     let total = n_a + n_b;
     let mut done_a = 0;
     for ci in 0..total {
